@@ -283,4 +283,30 @@ inductive Outcome where
 
 def U.outcome (u : U) : Outcome := if u.timedOut then .timeout else .fromExit u.leaked
 
+/-! ## `terminate_child`'s Stop / Continue arms as the translator reads them (tools/extract.py group `termchild`) -/
+
+/-- the effect of one statement of a `terminate_child` arm (as the translator names it) on the unit -/
+def applyAction (u : U) (a : String) : U × List Act :=
+  if a = "stopwatch.pause" then ({ u with sw := { u.sw with paused := true } }, [])
+  else if a = "sleep.pause" then ({ u with gs := { u.gs with paused := true } }, [])
+  else if a = "waiting_stopwatch.pause" then ({ u with ws := { u.ws with paused := true } }, [])
+  else if a = "stopwatch.resume" then ({ u with sw := { u.sw with paused := false } }, [])
+  else if a = "sleep.resume" then ({ u with gs := { u.gs with paused := false } }, [])
+  else if a = "waiting_stopwatch.resume" then ({ u with ws := { u.ws with paused := false } }, [])
+  else if a = "job_control:Stop" then (u, [.kill .tstp])
+  else if a = "job_control:Continue" then (u, [.kill .cont])
+  else if a = "ack" then (u, [.ack])
+  else (u, [.panic])
+
+def guardHolds (u : U) (g : String) : Bool :=
+  if g = "" then true
+  else if g = "stopwatch.is_paused" then u.sw.paused
+  else if g = "sleep.is_paused" then u.gs.paused
+  else if g = "waiting_stopwatch.is_paused" then u.ws.paused
+  else false
+
+/-- run the statements of an arm in order -/
+def interpArm (arm : List (String × String)) (u : U) : U × List Act :=
+  arm.foldl (fun acc ga => if guardHolds acc.1 ga.1 then ((applyAction acc.1 ga.2).1, acc.2 ++ (applyAction acc.1 ga.2).2) else acc) (u, [])
+
 end NextestModel.Unit
